@@ -449,6 +449,7 @@ func wsdecodeDirect(seed uint64, tier string, args []string, w *bufio.Writer) {
 		trials = 6000
 	}
 	r := newRng(seed*977 + 5)
+	side := newRng((seed*977 + 5) ^ 0xd15ca4d)
 	fails := 0
 	fail := func(key, format string, a ...any) {
 		fails++
@@ -483,6 +484,9 @@ func wsdecodeDirect(seed uint64, tier string, args []string, w *bufio.Writer) {
 			}
 			segs := wsdecodeSplit(r, wire)
 			var slots []sonic.Slot
+			var kept []int
+			discards := t%2 == 1
+			discarded := 0
 			next := 0
 			for guard := 0; guard < 10*len(wire)+20; guard++ {
 				f, err := codec.Decode(src)
@@ -492,7 +496,20 @@ func wsdecodeDirect(seed uint64, tier string, args []string, w *bufio.Writer) {
 						return
 					}
 					next++
-					slots = append(slots, src.Save(len(f)))
+					sl := src.Save(len(f))
+					if discards && side.intn(2) == 0 {
+						// a consumer that is done with the saved copy at once: Discard closes the gap under whatever has been
+						// received behind the frame (committed or not) — the next Decode must find the next frame there
+						if !bytes.Equal(src.SavedSlot(sl), frames[next-1]) {
+							fail("saved-frames", "frame %d as saved differs from what was received", next-1)
+							return
+						}
+						src.Discard(sl)
+						discarded++
+						continue
+					}
+					slots = append(slots, sl)
+					kept = append(kept, next-1)
 					continue
 				}
 				if !errors.Is(err, sonicerrors.ErrNeedMore) {
@@ -516,7 +533,7 @@ func wsdecodeDirect(seed uint64, tier string, args []string, w *bufio.Writer) {
 				}
 			}
 			for i, sl := range slots {
-				if !bytes.Equal(src.SavedSlot(sl), frames[i]) {
+				if !bytes.Equal(src.SavedSlot(sl), frames[kept[i]]) {
 					fail("saved-frames", "saved frame %d changed", i)
 					return
 				}
